@@ -23,6 +23,18 @@ ENC = ["BaseDiscretizer.update_discretizer", "GroupedList.group", "GroupedList.r
        "GroupedList.append", "BaseDiscretizer._get_labels_per_values", "BaseDiscretizer.transform", "transform_quantitative_feature", "BaseDiscretizer.summary"]
 
 
+
+def _summary(ctx, d, history):
+    """summary() of an edited object: any exception of the real code is a violation of C16 (seed5-C16), not a harness error"""
+    from symx.core import EncodingError
+
+    try:
+        return d.summary()
+    except (Violation, EncodingError):
+        raise
+    except Exception as e:
+        ctx.require(False, "C16.summary-raised", f"after {history}: summary() raised {type(e).__name__}: {str(e)[:160]}")
+
 def same(a, b):
     an = isinstance(a, float) and a != a
     bn = isinstance(b, float) and b != b
@@ -149,7 +161,7 @@ def _h_quant(ctx, m, gi, nan_mode, output_dtype, n_edits, dropna=True):
                 for i, r in enumerate(rows):
                     if after_lab[i] is not None:
                         ctx.require(eqv(out[i], after_lab[i]), "C17.label-after-edit", f"after {history}: row {r!r} labelled {out[i]!r}, rank of its group is {after_lab[i]}")
-            s = d.summary()
+            s = _summary(ctx, d, history)
             ctx.require(len(s) == exp_n, "C17.summary-after-edit", f"after {history}: summary has {len(s)} rows for {exp_n} groups")
             if getattr(ctx, "concrete", False):
                 from AutoCarver.discretizers.utils.base_discretizers import load_discretizer
@@ -255,7 +267,7 @@ def _h_qual(ctx, config, output_dtype, n_edits, ordered, dropna=True):
                 ctx.require(o == groups[gidx(v)][0], "C17.label-after-edit", f"after {history}: value {v!r} labelled {o!r}, its group's leader is {groups[gidx(v)][0]!r}")
         leaders = list(d.values_orders["f"])
         ctx.require(leaders == [g[0] for g in groups], "C17.values-orders-after-edit", f"after {history}: leaders {leaders!r}, expected {[g[0] for g in groups]!r}")
-        s = d.summary().reset_index().to_dict("records")
+        s = _summary(ctx, d, "edits").reset_index().to_dict("records")
         for r in s:
             for x in r["content"]:
                 ctx.require(r["label"] == d.labels_per_values["f"][x], "C17.summary-after-edit", f"summary says {x!r} -> {r['label']!r}")
